@@ -415,6 +415,12 @@ class Interp:
                     ref = Ref(self.fresh_name("concat"))
                     self.heap.data[(ref, "$")] = LSeq(z3.Concat(self.seq_term(ca, el), self.seq_term(cb, el)), el)
                     return VList(ref)
+        if opn == "Mult" and a.tag == "list" and kb == "int":
+            ca = self.container(a.ref)
+            nb = z3.simplify(tb)
+            if isinstance(ca, LConc) and z3.is_int_value(nb):
+                return self.new_list(ca.items * max(0, nb.as_long()))
+            raise Unsupported("list * symbolic int")
         if opn == "Mult" and a.tag == "str" and kb == "int":
             raise Unsupported("str * int")
         if opn == "Mod" and a.tag == "str":
@@ -974,6 +980,13 @@ class Interp:
             if g is not None:
                 return g
             raise Unsupported("class attribute %s.%s" % (base.name, attr))
+        if base.tag == "fn" and base.kind == "super":
+            spec = self.cset.classes.get(base.cls)
+            for b in (spec.bases if spec else []):
+                fc = self.cset.lookup_method(b, attr)
+                if fc is not None:
+                    return VFn("bound", obj=base.obj, name=attr, fc=fc)
+            raise Unsupported("super().%s: no contract in the bases of %s" % (attr, base.cls))
         if base.tag == "fn" and base.kind == "module":
             g = self.cset.globals.get("%s.%s" % (base.name, attr))
             if g is not None:
@@ -1026,7 +1039,7 @@ class Interp:
             if isinstance(c, LConc):
                 k = self.pyconst(idx)
                 if k is MISSING:
-                    raise Unsupported("concrete list indexed symbolically")
+                    k = self.conc_index(idx, len(c.items))
                 if not -len(c.items) <= k < len(c.items):
                     self.raise_("IndexError")
                 return c.items[k]
@@ -1071,6 +1084,17 @@ class Interp:
         if base.tag == "none":
             self.raise_("TypeError", "NoneType is not subscriptable")
         raise Unsupported("subscript on %r" % base)
+
+    def conc_index(self, idx, n):
+        """symbolic index into a concrete-length list: case split over the positions (forks)"""
+        kk, t = self.num(idx)
+        if kk != "int":
+            self.raise_("TypeError", "list indices must be integers")
+        opts = [t == i for i in range(-n, n)] + [z3.Or(t < -n, t >= n)]
+        j = self.ctx.choose(opts)
+        if j == 2 * n:
+            self.raise_("IndexError")
+        return j - n
 
     def slice(self, base, sl):
         if sl.step is not None:
@@ -1211,6 +1235,11 @@ class Interp:
                 if self.ctx.branch(self.truth(self.eval(n.args[0]))):
                     return self.eval(n.args[1])
                 return self.eval(n.args[2])
+        if isinstance(n.func, ast.Name) and n.func.id == "super" and not n.args:
+            fc0 = self.frames[-1].fc
+            if fc0 is None or "self" not in self.env:
+                raise Unsupported("super() outside a method")
+            return VFn("super", obj=self.force(self.env["self"]).ref, cls=fc0.qualname.split(".")[0])
         fn = self.eval(n.func)
         args = []
         for a in n.args:
@@ -1418,13 +1447,6 @@ class Interp:
     # ---- using a contract at a call site
     def call_contract(self, fc, recv, args, kwargs, node):
         env = self.bind(fc, recv, args, kwargs)
-        if fc.lets and not fc.inline:
-            self.frames.append(Frame(fc, env))
-            try:
-                for nm, text in fc.lets.items():
-                    env[nm] = self.spec_val(text)
-            finally:
-                self.frames.pop()
         if fc.model is not None:
             if fc.requires and not self.spec_depth:
                 self.frames.append(Frame(fc, dict(env)))
@@ -1463,8 +1485,6 @@ class Interp:
             from .verify import class_invariants
             cinv = class_invariants(self.cset, fc.key.split(".")[0])
         try:
-            for d in fc.defs:
-                self.ctx.assume(self.spec_bool(d))
             for label, clause in cinv:
                 f = self.spec_bool(clause)
                 self.ctx.prove("%s:%s@%s" % (self.frames[0].fc.key if self.frames[0].fc else "?", label, site),
@@ -1477,6 +1497,11 @@ class Interp:
                 self.ctx.prove("%s:%s@%s" % (self.frames[0].fc.key if self.frames[0].fc else "?", label, site),
                                _ctext(clause), f, info={"kind": "call-requires", "callee": fc.key,
                                                         "line": getattr(node, "lineno", None)})
+            for nm, text in fc.lets.items():
+                self.frames[-1].env[nm] = self.spec_val(text)
+                env[nm] = self.frames[-1].env[nm]
+            for d in fc.defs:
+                self.ctx.assume(self.spec_bool(d))
             if fc.pure or self.spec_depth:
                 res = self.fresh(fc.result, self.fresh_name("ret_" + fc.key)) if fc.result is not None else NONE
                 saved_res, saved_old = self.result, self.old_heap
